@@ -429,6 +429,31 @@ pub fn family(name: &str, _tier: Tier) -> Vec<Prog> {
         }
         "shapes/binds" => bind_shapes(),
         "shapes/fanout" => fanout_shapes(),
+        "shapes/diamond" => diamond_shapes(),
+        // node creation interleaved with everything else (C01 "create node"): the derived nodes do not exist when the
+        // history starts and appear one by one through `CreateNext` -- either all of them, or only the last one (a new
+        // dependant of nodes that have long been computed); sinks observable, one observer at a time
+        "c01/late" => catalogue()
+            .into_iter()
+            .map(|(_, p)| p)
+            .chain(grammar(&full_menu(), 2, 1))
+            .chain(bind_shapes().into_iter().step_by(5))
+            .flat_map(|p| {
+                let first_derived = p.nodes.iter().position(|n| !matches!(n.recipe, Recipe::Var(_) | Recipe::Const(_))).unwrap_or(p.nodes.len()) as u8;
+                let total = p.nodes.len() as u8;
+                let base = sinks_only(p);
+                let mut out = vec![];
+                for pre in [first_derived, total.saturating_sub(1)] {
+                    if pre < total && pre >= first_derived.min(total) && !out.iter().any(|q: &Prog| q.precreated == pre) {
+                        let mut q = base.clone();
+                        q.precreated = pre;
+                        q.alpha.values = vec![0, 1];
+                        out.push(q);
+                    }
+                }
+                out
+            })
+            .collect(),
         "shapes/xp" => xp_shapes(false),
         "shapes/xp-writes" => xp_shapes(true),
         "c03/nested" => nested_shapes(),
@@ -466,6 +491,29 @@ pub fn family(name: &str, _tier: Tier) -> Vec<Prog> {
                     p.alpha.max_observers = 2;
                     p.alpha.disallow = false;
                     p.alpha.values = vec![0, 1];
+                    p
+                })
+                .collect()
+        }
+        // A bind closure that hands back the node its previous run created: that node is invalidated while it is
+        // still the bind's right-hand side, i.e. while it is *needed*. Unlike `c03/stale_rhs` the bind is not pinned:
+        // once its observer is gone, nothing below the invalidated node may be computed any more (added after seed
+        // C05-c: invalidation must unlink a needed node from its inputs).
+        "c05/stale" => {
+            use Rhs::*;
+            let shapes: Vec<(Vec<NodeSpec>, Vec<u8>)> = vec![
+                (vec![var(0), var(1), map(F1::Par, 1), bind(0, ST(2), ST(2))], vec![3]),
+                (vec![var(0), var(1), map(F1::Par, 1), bind(0, ST(2), E(2)), map(F1::Inc, 3)], vec![4, 2]),
+                (vec![var(0), var(1), map(F1::Par, 1), map(F1::Inc, 2), bind(0, ST(3), F(2))], vec![4]),
+            ];
+            shapes
+                .into_iter()
+                .map(|(nodes, observable)| {
+                    let mut p = Prog::new(nodes);
+                    p.alpha.observable = observable;
+                    p.alpha.max_observers = 1;
+                    p.alpha.disallow = false;
+                    p.alpha.values = vec![0, 1, 2];
                     p
                 })
                 .collect()
@@ -557,6 +605,19 @@ pub fn family(name: &str, _tier: Tier) -> Vec<Prog> {
                 with_alpha(p, |a| {
                     a.handler_self_unsub = true;
                     a.state_unsubscribe = false;
+                    a.clone_obs = false;
+                })
+            })
+            .collect(),
+        // handlers that end the life of their own observer: with two subscriptions on one observer the sibling that has
+        // not run yet must stay silent (added after seed C09-c); both handler orders are explored
+        "c09/self_disallow" => subscription_programs()
+            .into_iter()
+            .map(|p| {
+                with_alpha(p, |a| {
+                    a.handler_self_disallow = true;
+                    a.state_unsubscribe = false;
+                    a.unsubscribe = false;
                     a.clone_obs = false;
                 })
             })
@@ -960,4 +1021,45 @@ pub fn xp_shapes(writes: bool) -> Vec<Prog> {
             p
         })
         .collect()
+}
+
+/// A bind that switches between a low and a tall right-hand side, with a diamond of *unequal* arms above it whose long
+/// arm consists of two-input links (a chain of one-input maps would be recomputed eagerly by the direct-recompute
+/// shortcut and hide a wrong height): the join node must be raised through both arms when the bind grows taller.
+/// Variants: right-hand sides of different values (inc chains) or of equal value (max chains: the switch changes heights
+/// only, the wrong order shows at the next change). Added after seeds C11-b / C02-c.
+///   0:sel 1:v 2:k 3:t1 4:t2 5:m=bind(sel, v | t2) 6:a=inc(m) 7:b1=mix(m,k) 8:b2=mix(b1,k) 9:b3=mix(b2,k) 10:z=mix(a,b3)
+pub fn diamond_shapes() -> Vec<Prog> {
+    use Rhs::*;
+    let k = |c: i32| n(Recipe::Const(c));
+    let mut out = vec![];
+    // `tall`: number of links of the tall right-hand side; it must end up higher than the join node z already is
+    // (bind main + 4), otherwise nothing above the bind is lifted at all
+    for (equal_value, tall) in [(false, 2u8), (true, 2), (false, 7), (true, 7)] {
+        let alts: Vec<(u8, u8)> = if tall == 2 { vec![(0, 2), (2, 0), (1, 2)] } else { vec![(0, tall), (tall, 0)] };
+        for (e, o) in alts {
+            // 0:sel 1:v 2:k 3..3+tall-1: chain over v
+            let mut nodes = vec![var(0), var(1), k(1)];
+            for i in 0..tall {
+                let prev = if i == 0 { 1 } else { 2 + i };
+                nodes.push(if equal_value { map2(F2::Max, prev, 1) } else { map(F1::Inc, prev) });
+            }
+            let link = |d: u8| if d == 0 { 1 } else { 2 + d };
+            let m = nodes.len() as u8;
+            nodes.push(bind(0, E(link(e)), E(link(o))));
+            nodes.push(map(F1::Inc, m)); // a   = m+1
+            nodes.push(map2(F2::Mix, m, 2)); // b1
+            nodes.push(map2(F2::Mix, m + 2, 2)); // b2
+            nodes.push(map2(F2::Mix, m + 3, 2)); // b3
+            nodes.push(map2(F2::Mix, m + 1, m + 4)); // z = mix(a, b3)
+            let mut p = Prog::new(nodes);
+            p.alpha.observable = vec![m + 5, m + 1];
+            p.start_observed = vec![m + 5];
+            p.alpha.max_observers = 2;
+            p.alpha.values = vec![0, 1];
+            p.alpha.disallow = false;
+            out.push(p);
+        }
+    }
+    out
 }
